@@ -16,10 +16,19 @@ type Value struct {
 	Sl *SliceVal         // slice
 	St map[string]*Value // struct value
 	Cl *Closure          // function literal bound to a local
+	Raw bool             // pointer into a slice of invariant-bearing structs (see typeinv.go)
+	RawC *Term           // when Raw: the condition under which the pointer is raw (nil = always)
+	Table *funcTable     // function value read from an immutable package-level table
 	// Addr is set for struct values that are addressable views of heap cells (unused for plain values)
 }
 
 type SliceVal struct{ Ptr, Len, Cap *Term }
+
+type funcTable struct {
+	Global  *types.Var
+	Idx     *Term
+	Entries []*types.Func
+}
 
 type Closure struct {
 	Lit *ast.FuncLit
@@ -177,12 +186,15 @@ type State struct {
 	path  []*Term // branch conditions only (guards used when states are merged)
 	dead  bool
 	dirty []*Term // addresses of invariant-bearing objects written since the last boundary
+	dirtyTI []*typeInvInfo
+	known map[int]bool // invariant instances already assumed
 	quiet bool    // spec evaluation inside binders: do not record facts
 	fallthru bool
+	label string // case label of a split dispatch switch (obligation naming)
 }
 
 func (s *State) clone() *State {
-	n := &State{vars: make(map[*types.Var]*Value, len(s.vars)), heap: make(map[string]*Term, len(s.heap)), base: s.base, alloc: s.alloc, dead: s.dead, quiet: s.quiet}
+	n := &State{vars: make(map[*types.Var]*Value, len(s.vars)), heap: make(map[string]*Term, len(s.heap)), base: s.base, alloc: s.alloc, dead: s.dead, quiet: s.quiet, label: s.label}
 	for k, v := range s.vars {
 		n.vars[k] = v
 	}
@@ -192,6 +204,13 @@ func (s *State) clone() *State {
 	n.pc = append([]*Term{}, s.pc...)
 	n.path = append([]*Term{}, s.path...)
 	n.dirty = append([]*Term{}, s.dirty...)
+	n.dirtyTI = append([]*typeInvInfo{}, s.dirtyTI...)
+	if s.known != nil {
+		n.known = make(map[int]bool, len(s.known))
+		for k := range s.known {
+			n.known[k] = true
+		}
+	}
 	return n
 }
 
@@ -221,6 +240,12 @@ func (e *Engine) heapGet(s *State, key string, sort Sort) *Term {
 	if h, ok := s.heap[key]; ok {
 		return h
 	}
+	if strings.HasPrefix(key, "box.") {
+		// boxed struct copies are immutable: their heaps are never havocked
+		h := e.ts.Var("BOX0."+key, sort)
+		s.heap[key] = h
+		return h
+	}
 	h := s.base.get(key, sort)
 	s.heap[key] = h
 	return h
@@ -237,7 +262,13 @@ func (e *Engine) newBase(hint string) *heapBase {
 
 // havocAll forgets every heap.
 func (e *Engine) havocAll(s *State) {
-	s.heap = map[string]*Term{}
+	keep := map[string]*Term{}
+	for k, h := range s.heap {
+		if strings.HasPrefix(k, "box.") {
+			keep[k] = h
+		}
+	}
+	s.heap = keep
 	s.base = e.newBase("")
 }
 
@@ -374,10 +405,11 @@ func (e *Engine) merge(states []*State) *State {
 	// dirty: union
 	seen := map[int]bool{}
 	for _, s := range live {
-		for _, d := range s.dirty {
+		for i, d := range s.dirty {
 			if !seen[d.id] {
 				seen[d.id] = true
 				out.dirty = append(out.dirty, d)
+				out.dirtyTI = append(out.dirtyTI, s.dirtyTI[i])
 			}
 		}
 	}
@@ -436,7 +468,44 @@ func (e *Engine) mergeValues(guards []*Term, vals []*Value) *Value {
 				return first
 			}
 		}
-		return &Value{T: first.T, Tm: pick(func(v *Value) *Term { return v.Tm })}
+		raw := false
+		allRaw := true
+		for _, v := range vals {
+			if v.Raw {
+				raw = true
+			} else {
+				allRaw = false
+			}
+		}
+		out := &Value{T: first.T, Tm: pick(func(v *Value) *Term { return v.Tm }), Raw: raw}
+		if raw && !allRaw {
+			// raw only on some of the merged paths: remember the condition
+			var cs []*Term
+			for i, v := range vals {
+				if v.Raw {
+					c := guards[i]
+					if v.RawC != nil {
+						c = ts.And(c, v.RawC)
+					}
+					cs = append(cs, c)
+				}
+			}
+			out.RawC = ts.Or(cs...)
+		} else if raw {
+			var cs []*Term
+			all := true
+			for i, v := range vals {
+				if v.RawC == nil {
+					all = false
+					break
+				}
+				cs = append(cs, ts.And(guards[i], v.RawC))
+			}
+			if all {
+				out.RawC = ts.Or(cs...)
+			}
+		}
+		return out
 	}
 	return first
 }
